@@ -188,7 +188,7 @@ fn backend<B: Backend>(opts: &Opts, rep: &mut Report) {
             for b in 0..64 {
                 counter += 1;
                 idx += 1;
-                if opts.mine(idx) && (exhaustive || counter % stride == 0) {
+                if opts.mine_sys(idx) && (exhaustive || counter % stride == 0) {
                     let s = if is_id {
                         format!("{}{}{}{}{}", c.header, prefix, "AA", ALPH[a] as char, ALPH[b] as char)
                     } else {
@@ -199,7 +199,7 @@ fn backend<B: Backend>(opts: &Opts, rep: &mut Report) {
                 for d in 0..64 {
                     counter += 1;
                     idx += 1;
-                    if opts.mine(idx) && (exhaustive || counter % stride == 0) {
+                    if opts.mine_sys(idx) && (exhaustive || counter % stride == 0) {
                         let s = if is_id {
                             format!("{}{}{}{}{}{}", c.header, prefix, "A", ALPH[a] as char, ALPH[b] as char, ALPH[d] as char)
                         } else {
@@ -213,7 +213,7 @@ fn backend<B: Backend>(opts: &Opts, rep: &mut Report) {
         // tail of one character: impossible length, all 64
         for a in 0..64 {
             idx += 1;
-            if opts.mine(idx) {
+            if opts.mine_sys(idx) {
                 check(rep, c, "tail1", &format!("{}{}{}", c.header, prefix, ALPH[a] as char), &mut None);
             }
         }
@@ -224,7 +224,7 @@ fn backend<B: Backend>(opts: &Opts, rep: &mut Report) {
         for pos in 0..base_body.len() {
             for byte in 0u8..0x80 {
                 idx += 1;
-                if !opts.mine(idx) {
+                if !opts.mine_sys(idx) {
                     continue;
                 }
                 let mut body = base_body.clone().into_bytes();
@@ -234,7 +234,7 @@ fn backend<B: Backend>(opts: &Opts, rep: &mut Report) {
             }
             for ins in ["é", "€", "𝄞", "\u{80}"] {
                 idx += 1;
-                if !opts.mine(idx) {
+                if !opts.mine_sys(idx) {
                     continue;
                 }
                 let mut body = base_body.clone();
@@ -249,13 +249,13 @@ fn backend<B: Backend>(opts: &Opts, rep: &mut Report) {
         let long_body = valid_body(&mut rng, c, 8);
         for l in 0..=long_body.len() {
             idx += 1;
-            if opts.mine(idx) {
+            if opts.mine_sys(idx) {
                 check(rep, c, "prefix-length", &format!("{}{}", c.header, &long_body[..l]), &mut None);
             }
         }
         // (4) padding, standard alphabet, whitespace, extra segments, header variants
         idx += 1;
-        if opts.mine(idx) {
+        if opts.mine_sys(idx) {
             let b = &base_body;
             let h = &c.header;
             let b3 = &b[..b.len() - 1]; // 3-char tail
@@ -309,7 +309,7 @@ fn backend<B: Backend>(opts: &Opts, rep: &mut Report) {
             for len in 0..=300usize {
                 for content in 0..3 {
                     idx += 1;
-                    if !opts.mine(idx) {
+                    if !opts.mine_sys(idx) {
                         continue;
                     }
                     let bytes = match content {
@@ -328,7 +328,7 @@ fn backend<B: Backend>(opts: &Opts, rep: &mut Report) {
             // all 256 single-byte values and all two-byte tails
             for b0 in 0..=255u8 {
                 idx += 1;
-                if opts.mine(idx) {
+                if opts.mine_sys(idx) {
                     for tail in [vec![b0], vec![0x5a, b0], vec![b0, 0xa5], vec![1, 2, 3, b0], vec![1, 2, 3, 4, b0]] {
                         let s = from_raw(&tail);
                         if s != format!("{}{}", c.header, crate::b64::encode(&tail)) {
@@ -355,7 +355,7 @@ fn backend<B: Backend>(opts: &Opts, rep: &mut Report) {
     }
     // Key<V,K> (semantic) — local keys: exactly 32 bytes
     idx += 1;
-    if opts.mine(idx) {
+    if opts.mine_sys(idx) {
         for len in 0..=70usize {
             let s = format!("k{}.local.{}", B::VER, crate::b64::encode(&vec![7u8; len]));
             let ok = s.parse::<LocalKey<B>>().is_ok();
